@@ -28,6 +28,7 @@ package rib
 
 //@ unit RIB.AddEntry
 //@ requires holdersWF(r) && pendingWF(r) && opWF(op) && ribQuiet(r) && unixTS != nil
+//@ requires[own-instance] ni == op.GetNetworkInstance()
 //@ ensures[fatal] result2 != nil ==> len(result0) == 0 && len(result1) == 0
 //@ ensures[wf] resultsWF(result0) && resultsWF(result1)
 //@ ensures[rib-wf] holdersWF(r) && pendingWF(r) && holdersNonNil(r)
@@ -778,7 +779,7 @@ package rib
 // ---- operations on the whole RIB (C01, C02, C06) ----
 //@ pred opWF(op *spb.AFTOperation) = op != nil && oneofOK(op.Entry) && (op.GetMpls() != nil ==> oneofOK(op.GetMpls().Label))
 //@ pred pendingWF(r *RIB) = r.pendingEntries != nil && (forall k in dom(r.pendingEntries) :: r.pendingEntries[k] != nil
-//@   && opWF(r.pendingEntries[k].op) && r.pendingEntries[k].op.GetId() == k)
+//@   && opWF(r.pendingEntries[k].op) && r.pendingEntries[k].op.GetId() == k && r.pendingEntries[k].ni == r.pendingEntries[k].op.GetNetworkInstance())
 //@   && (r.disableForwardReferences ==> dom(r.pendingEntries) == emptyset(uint64))
 //@ pred newIDsNotHeld(r *RIB, rs []*OpResult, from Int) = forall i in from..len(rs) :: !(rs[i].ID in dom(r.pendingEntries))
 // opInstalled: the entry named by op is in the tables of h with the key and reference fields of op's payload.
@@ -794,6 +795,7 @@ package rib
 
 //@ unit RIB.addEntryInternal
 //@ requires holdersWF(r) && pendingWF(r) && opWF(op) && ribQuiet(r) && unixTS != nil
+//@ requires[own-instance] ni == op.GetNetworkInstance()
 //@ requires oks != nil && fails != nil && installStack != nil && resultsWF(*oks) && resultsWF(*fails) && stackNotHeld(r, installStack)
 //@ ensures[prefix] prefixKept(*oks, old(*oks)) && prefixKept(*fails, old(*fails))
 //@ ensures[wf-results] resultsWF(*oks) && resultsWF(*fails)
@@ -837,7 +839,7 @@ package rib
 //@ loop 1 invariant (forall k in old(dom(installStack)) :: old(installStack[k]) ==> installStack[k]) && installStack[op.GetId()]
 //@ loop 1 invariant forall k in dom(r.pendingEntries) :: k in old(dom(r.pendingEntries))
 //@ loop 1 invariant (exists i in old(len(*oks))..len(*oks) :: (*oks)[i].ID == op.GetId()) && oks != nil && fails != nil && installStack != nil && opWF(op)
-//@ loop 1 invariant forall j in 0..len(ranged) :: ranged[j] != nil && opWF(ranged[j].op) && ranged[j].op.GetId() in old(dom(r.pendingEntries))
+//@ loop 1 invariant forall j in 0..len(ranged) :: ranged[j] != nil && opWF(ranged[j].op) && ranged[j].op.GetId() in old(dom(r.pendingEntries)) && ranged[j].ni == ranged[j].op.GetNetworkInstance()
 //@ assigns ribState, *oks, *fails, contents(installStack), spawned, hookCount
 //@ props C01 C02 C06 C12:safety
 
